@@ -60,6 +60,9 @@ def strategy(tier):
                                st.integers(0, 2**22), st.integers(0, 2**22),
                                st.integers(0, 2**22)),
                      min_size=0, max_size=4)),
+        # /proc/zoneinfo present but not openable (LSM / container masking):
+        # the watermarks are as unavailable as when the file is absent
+        zoneinfo_errno=st.sampled_from([None, None, None, "EACCES", "EPERM", "EIO", "EISDIR"]),
         vmstat=st.one_of(
             st.none(),
             st.fixed_dictionaries(dict(
@@ -229,9 +232,19 @@ def run_case(case):
     zones = case["zoneinfo"]
     k = simk.Kernel()
     k.set_file("/proc/meminfo", render_meminfo(items))
+    zerr = case.get("zoneinfo_errno")
     if zones is not None:
         zones = [tuple(z) for z in zones]
-        k.set_file("/proc/zoneinfo", render_zoneinfo(zones))
+        if zerr == "EISDIR":
+            k.mkdir("/proc/zoneinfo")
+            zones = None
+        elif zerr:
+            import errno as _errno
+            k.set_file("/proc/zoneinfo", simk.Unreadable(getattr(_errno, zerr), "open",
+                                                         render_zoneinfo(zones)))
+            zones = None
+        else:
+            k.set_file("/proc/zoneinfo", render_zoneinfo(zones))
     vs = case["vmstat"]
     if vs is not None:
         lines = ["nr_free_pages 1000"] * vs["pre"]
@@ -244,6 +257,8 @@ def run_case(case):
                  case["sysinfo"][2])
 
     exp, pct, missing, avail_named, branches = model_vm(items, zones)
+    if zerr and case["zoneinfo"] is not None and "fallback-free+cached" in branches:
+        branches.add("zoneinfo-unreadable")
     with simk.installed(k):
         with warnings.catch_warnings(record=True) as ws:
             warnings.simplefilter("always")
